@@ -16,6 +16,7 @@ import magpylib as magpy
 
 MU0 = magpy.mu_0
 FIELDS = ("B", "H", "J", "M")
+MODES = ["sumup", "sumup", "collection", "collection", "loop", "loop", "nested", "decoy1e3", "decoy1e6", "decoy1e9"]
 GET = {"B": magpy.getB, "H": magpy.getH, "J": magpy.getJ, "M": magpy.getM}
 
 
@@ -26,6 +27,8 @@ def rnd(rng, a, b, nd=4):
 
 def gen_pol(rng):
     k = rng.random()
+    if k < 0.02:
+        return [0.0, 0.0, 0.0]          # the null-polarization special case of every wrapper: all fields exactly 0
     if k < 0.15:
         v = [0.0, 0.0, 0.0]
         v[rng.randrange(3)] = rnd(rng, 0.2, 1.5) * rng.choice([-1, 1])
@@ -89,41 +92,112 @@ def off_planes(x, planes, margin):
     return all(abs(x - p) > margin for p in planes)
 
 
-def field_of(objs, obs, f, mode):
+def decoys(objs, obs, factor):
+    """pairs of sources that cancel exactly (same geometry, opposite excitation: every closed form is odd in the
+    excitation), of three classes, far from the observers, with excitations `factor` times the parts' one"""
+    ctr = obs.mean(axis=0)
+    ext = float(np.abs(obs - ctr).max()) or 1.0
+    pol = getattr(objs[0], "polarization", None)
+    q = factor * (float(np.linalg.norm(pol)) if pol is not None else 1.0) or factor
+    out = []
+    for cls, kw, off, v in (
+            (magpy.magnet.Sphere, {"diameter": ext}, (8.0, 1.0, -2.0), (1.0, -2.0, 0.5)),
+            (magpy.magnet.Cuboid, {"dimension": (ext, 0.7 * ext, 1.3 * ext)}, (-3.0, 9.0, 2.0), (0.3, 0.4, -1.0))):
+        for sgn in (1.0, -1.0):
+            out.append(cls(polarization=tuple(sgn * q * x for x in v), position=ctr + ext * np.array(off), **kw))
+    for sgn in (1.0, -1.0):
+        out.append(magpy.misc.Dipole(moment=(sgn * q * ext ** 3 / MU0, 0.0, sgn * q * ext ** 3 / MU0),
+                                     position=ctr + ext * np.array((2.0, -3.0, 9.0))))
+    return out
+
+
+def field_of(objs, obs, f, mode, via="toplevel"):
     """sum of the fields of objs at obs (n,3); mode: how the sum is taken; a mode ending in '/each' evaluates one
     observer per call (a batch of one row takes other paths through the grouping code than a batch of many)"""
     if mode.endswith("/each"):
-        return np.vstack([field_of(objs, obs[i:i + 1], f, mode[:-5]) for i in range(len(obs))])
+        return np.vstack([field_of(objs, obs[i:i + 1], f, mode[:-5], via) for i in range(len(obs))])
     if not isinstance(objs, (list, tuple)):
+        if via == "method":                 # the method of the source
+            return np.reshape(getattr(objs, "get" + f)(obs), (-1, 3))
+        if via == "sensor":                 # observers given as the pixels of a Sensor
+            return np.reshape(GET[f](objs, magpy.Sensor(pixel=obs)), (-1, 3))
         return np.reshape(GET[f](objs, obs), (-1, 3))
+    objs = list(objs)
     if mode == "sumup":
-        return np.reshape(GET[f](list(objs), obs, sumup=True), (-1, 3))
+        return np.reshape(GET[f](objs, obs, sumup=True), (-1, 3))
     if mode == "collection":
         return np.reshape(GET[f](magpy.Collection(*objs, override_parent=True), obs), (-1, 3))
+    if mode == "nested" and len(objs) >= 2:     # a Collection of Collections (depth 2), one part directly below the root
+        k = max(1, len(objs) // 2)
+        inner = [magpy.Collection(*objs[1:k], override_parent=True)] if k > 1 else []
+        root = magpy.Collection(objs[0], *inner, magpy.Collection(*objs[k:], override_parent=True), override_parent=True)
+        return np.reshape(GET[f](root, obs), (-1, 3))
+    if mode.startswith("decoy"):                # several classes interleaved with the parts, large field ratios
+        dec = decoys(objs, obs, float(mode[5:] or 1e6))
+        mixed = [dec[0], objs[0], dec[2]] + objs[1:2] + [dec[4], dec[1]] + objs[2:] + [dec[3], dec[5]]
+        return np.reshape(GET[f](mixed, obs, sumup=True), (-1, 3))
     tot = 0.0
     for o in objs:
         tot = tot + np.reshape(GET[f](o, obs), (-1, 3))
     return tot
 
 
-def compare(whole, parts, obs, pol, fields, mode, rtol, atol):
-    """returns list of (field, max relative error, row index); error relative to max(local field, atol*scale)"""
+def compare_fn(get_w, get_p, nobs, pol, fields, rtol, atol):
+    """get_w(f), get_p(f) -> (k*nobs, 3) arrays; returns list of (field, max error / tolerance, observer index);
+    the tolerance of a row is rtol * (its own field) + atol * (field scale of the body)"""
     out = []
-    jn = float(np.linalg.norm(pol))
+    jn = float(np.linalg.norm(pol)) or 1.0       # null polarization: every field must vanish (absolute floor)
     for f in fields:
         scale = jn if f in "BJ" else jn / MU0
-        W = field_of(whole, obs, f, "single" + ("/each" if mode.endswith("/each") else ""))
-        P = field_of(parts, obs, f, mode)
+        W, P = get_w(f), get_p(f)
+        if W.shape != P.shape:
+            out.append((f, float("inf"), 0))
+            continue
         if not (np.all(np.isfinite(W)) and np.all(np.isfinite(P))):
             bad = int(np.argmax(~(np.isfinite(W).all(axis=1) & np.isfinite(P).all(axis=1))))
-            out.append((f, float("inf"), bad))
+            out.append((f, float("inf"), bad % nobs))
             continue
         d = np.linalg.norm(W - P, axis=1)
         ref = np.maximum(np.linalg.norm(W, axis=1), np.linalg.norm(P, axis=1))
         rel = d / (rtol * ref + atol * scale)
         i = int(np.argmax(rel))
-        out.append((f, float(rel[i]), i))
+        out.append((f, float(rel[i]), i % nobs))
     return out
+
+
+def compare(whole, parts, obs, pol, fields, mode, rtol, atol, via="toplevel"):
+    each = "/each" if mode.endswith("/each") else ""
+    return compare_fn(lambda f: field_of(whole, obs, f, "single" + each, via), lambda f: field_of(parts, obs, f, mode),
+                      len(obs), pol, fields, rtol, atol)
+
+
+def set_pol(obj, pol):
+    """assign a new polarization to a source, a list of sources or a (nested) Collection"""
+    if isinstance(obj, (list, tuple)):
+        for o in obj:
+            set_pol(o, pol)
+    elif hasattr(obj, "children"):
+        set_pol(list(obj.children), pol)
+    else:
+        obj.polarization = pol
+
+
+def apply_ops(obj, ops):
+    """the same rigid motion history on a single source or on the Collection of the parts: a vector move (the path
+    grows by len(pmove) steps) followed by one rotation of the whole path about a fixed global anchor"""
+    if ops.get("pmove"):
+        obj.move(np.array(ops["pmove"], dtype=float))
+    if ops.get("prot"):
+        obj.rotate(R.from_rotvec(np.array(ops["prot"], dtype=float)), anchor=np.array(ops["panchor"], dtype=float))
+
+
+def as_collection(parts, mode):
+    parts = list(parts)
+    if mode == "nested" and len(parts) >= 2:
+        k = max(1, len(parts) // 2)
+        inner = [magpy.Collection(*parts[1:k], override_parent=True)] if k > 1 else []
+        return magpy.Collection(parts[0], *inner, magpy.Collection(*parts[k:], override_parent=True), override_parent=True)
+    return magpy.Collection(*parts, override_parent=True)
 
 
 # ------------------------------------------------------------------ family 1: Cuboid = sum of cuboids
@@ -136,7 +210,8 @@ def gen_cuboid_partition(rng):
     size = max(dim)
     margin = 0.02 * min(dim)
     obs = []
-    while len(obs) < 6:
+    nobs = 18 if rng.random() < 0.12 else 6
+    while len(obs) < nobs:
         if rng.random() < 0.5:   # inside the body (inside one part, outside the others)
             p = [rnd(rng, -dim[i] / 2, dim[i] / 2) for i in range(3)]
         else:
@@ -157,7 +232,7 @@ def gen_cuboid_partition(rng):
                     and off_planes(p[ax], edges[ax][1:-1], margin):
                 obs.append(p)
     return {"family": "cuboid_partition", "dim": dim, "edges": edges, "pol": gen_pol(rng), "pose": gen_pose(rng),
-            "obs": obs, "mode": rng.choice(["sumup", "collection", "loop"])}
+            "obs": obs, "mode": rng.choice(MODES)}
 
 
 def build_cuboid_partition(c):
@@ -234,11 +309,16 @@ def gen_cylinder_partition(rng):
     parts: CylinderSegments from radial x angular x axial cuts"""
     r2 = rnd(rng, 0.4, 2.0)
     h = rnd(rng, 0.3, 3.0)
+    if rng.random() < 0.15:                 # flat discs and long rods
+        h = r2 * rng.choice([0.08, 0.15, 8.0, 15.0])
     kind = rng.choice(["cylinder", "cylinder", "full_segment", "hollow", "segment"])
     r1 = 0.0 if kind in ("cylinder", "full_segment") else rnd(rng, 0.1, 0.7) * r2
+    if r1 > 0 and rng.random() < 0.2:       # thin shells
+        r1 = rnd(rng, 0.85, 0.96) * r2
     if kind == "segment":
         phi1 = rnd(rng, -360, 300, 2)
-        phi2 = min(phi1 + rnd(rng, 30, 330, 2), 360.0)
+        span = rnd(rng, 30, 330, 2) if rng.random() < 0.8 else rng.choice([350.0, 358.5, 359.9, 12.0, 3.0])
+        phi2 = min(phi1 + span, 360.0)
         if rng.random() < 0.3:
             r1 = 0.0
     else:
@@ -257,7 +337,8 @@ def gen_cylinder_partition(rng):
     if phi2 - phi1 == 360.0 and nphi == 1 and kind in ("full_segment", "hollow", "cylinder"):
         ang_planes = []
     obs = []
-    while len(obs) < 6:
+    nobs = 18 if rng.random() < 0.12 else 6
+    while len(obs) < nobs:
         u = rng.random()
         if u < 0.5:
             r = rnd(rng, 0, 1.0) * r2
@@ -283,7 +364,7 @@ def gen_cylinder_partition(rng):
     if rng.random() < 0.5:
         obs += special_cyl_observers(rng, re_, pe, ze, margin)
     return {"family": "cylinder_partition", "kind": kind, "r": re_, "phi": pe, "z": ze, "pol": gen_pol(rng),
-            "pose": gen_pose(rng), "obs": obs, "mode": rng.choice(["sumup", "collection", "loop"])}
+            "pose": gen_pose(rng), "obs": obs, "mode": rng.choice(MODES)}
 
 
 def build_cylinder_partition(c):
@@ -374,6 +455,18 @@ def gen_cuboid_repr(rng):
             continue
         # the diagonals of the faces are triangle edges: stay away from the planes through them only when on a face
         obs.append(p)
+    if rng.random() < 0.3:
+        # on the (infinite) plane of a face of the Cuboid but outside the body and off every plane of the parts
+        for _ in range(2):
+            ax = rng.randrange(3)
+            p = [rnd(rng, -1.5 * size, 1.5 * size) for _ in range(3)]
+            p[ax] = rng.choice([-half[ax], half[ax]])
+            o = rng.choice([k for k in range(3) if k != ax])
+            p[o] = (half[o] + rnd(rng, 0.05, 1.0) * size) * rng.choice([-1, 1])
+            q = 3 - ax - o
+            if off_planes(p[q], [-half[q], half[q]], margin) and \
+                    not any(abs(float(n @ np.array(p)) - off) <= margin for n, off in planes):
+                obs.append(p)
     if rep in ("mesh", "mesh_shuffled", "triangles") and rng.random() < 0.5:
         Vc = np.array(CUBE_V, dtype=float) * np.array(half)
         obs += edge_extension_observers(rng, [[Vc[i] for i in f] for f in CUBE_F])
@@ -383,7 +476,8 @@ def gen_cuboid_repr(rng):
         rng.shuffle(perm)
         flips = [rng.randrange(3) for _ in range(12)]     # cyclic rotations keep the orientation
     return {"family": "cuboid_repr", "rep": rep, "dim": dim, "pol": gen_pol(rng), "pose": gen_pose(rng), "obs": obs,
-            "perm": perm, "flips": flips, "salt": rng.randrange(24), "mode": rng.choice(["sumup", "collection", "loop"])}
+            "perm": perm, "flips": flips, "salt": rng.randrange(24), "mode": rng.choice(MODES),
+            "voff": [rnd(rng, -2, 2) * size for _ in range(3)] if rng.random() < 0.4 else [0.0, 0.0, 0.0]}
 
 
 def cube_vertices(dim):
@@ -393,8 +487,10 @@ def cube_vertices(dim):
 def build_cuboid_repr(c):
     pose, pol, rep = c["pose"], c["pol"], c["rep"]
     whole = magpy.magnet.Cuboid(polarization=pol, dimension=c["dim"], **whole_pose(pose))
-    V = cube_vertices(c["dim"])
-    wp = whole_pose(pose)
+    # the same body described by vertices that are OFF the local origin: vertices shifted by voff, position by -R voff
+    voff = np.array(c.get("voff", [0.0, 0.0, 0.0]), dtype=float)
+    V = cube_vertices(c["dim"]) + voff
+    wp = place(pose, -voff)
     if rep in ("mesh", "mesh_shuffled"):
         faces = []
         for idx, fl in zip(c["perm"], c["flips"]):
@@ -419,6 +515,11 @@ def gen_sphere_dipole(rng):
         p = np.array([rnd(rng, -3, 3) for _ in range(3)]) * d
         if np.linalg.norm(p) > 0.51 * d:
             obs.append([float(x) for x in p])
+    if rng.random() < 0.3:
+        for _ in range(2):
+            p = [0.0, 0.0, 0.0]
+            p[rng.randrange(3)] = rnd(rng, 0.55, 3.0) * d * rng.choice([-1, 1])
+            obs.append(p)
     return {"family": "sphere_dipole", "d": d, "pol": gen_pol(rng), "pose": gen_pose(rng), "obs": obs, "mode": "single"}
 
 
@@ -441,7 +542,13 @@ def gen_polyline_circle(rng):
             continue
         ph = rnd(rng, -math.pi, math.pi)
         obs.append([rho * math.cos(ph), rho * math.sin(ph), z])
-    return {"family": "polyline_circle", "d": d, "cur": rnd(rng, 0.2, 5.0) * rng.choice([-1, 1]),
+    if rng.random() < 0.4:
+        obs.append([0.0, 0.0, rnd(rng, -1.0, 1.0) * d])                       # on the axis (Circle special branch)
+        rho = rng.choice([rnd(rng, 0.0, 0.3), rnd(rng, 0.7, 1.5)]) * d
+        ph = rnd(rng, -math.pi, math.pi)
+        obs.append([rho * math.cos(ph), rho * math.sin(ph), 0.0])             # in the plane of the loop
+    return {"family": "polyline_circle", "d": d,
+            "cur": 0.0 if rng.random() < 0.03 else rnd(rng, 0.2, 5.0) * rng.choice([-1, 1]),
             "pose": gen_pose(rng), "obs": obs, "phase": rnd(rng, 0, 1.0), "mode": "single"}
 
 
@@ -512,7 +619,7 @@ def gen_mesh_convert(rng):
     npath = rng.choice([1, 1, 1, 2, 3]) if conv == "to_TriangleCollection" else 1
     path = [[rnd(rng, -1, 1) for _ in range(3)] for _ in range(npath - 1)]
     return {"family": "mesh_convert", "conv": conv, "points": pts, "dim": dim, "pol": gen_pol(rng), "pose": pose,
-            "path": path, "obs": obs, "salt": rng.randrange(24), "mode": rng.choice(["sumup", "collection", "loop"])}
+            "path": path, "obs": obs, "salt": rng.randrange(24), "mode": rng.choice(MODES)}
 
 
 # ------------------------------------------------------------------ family 7: Cuboid = slabs in mixed representations
@@ -560,7 +667,7 @@ def gen_mixed_partition(rng):
         obs.append(p)
     return {"family": "mixed_partition", "dim": dim, "axis": ax, "edges": edges, "reps": reps, "pol": gen_pol(rng),
             "pose": gen_pose(rng), "obs": obs, "salt": rng.randrange(24),
-            "mode": rng.choice(["sumup", "collection"] if same_count else ["sumup", "collection", "loop"])}
+            "mode": rng.choice(["sumup", "collection", "nested", "decoy1e6"] if same_count else MODES)}
 
 
 def _slab_vertices(lo, hi):
@@ -612,6 +719,15 @@ def _with_each(gen):
         c = gen(rng)
         c["each"] = c["family"] != "polyline_circle" and rng.random() < 0.3
         c["scale"] = rng.choice(SCALES)
+        c["via"] = rng.choice(["toplevel", "toplevel", "method", "sensor"])
+        c["as_array"] = rng.random() < 0.3
+        c["history"] = rng.random() < 0.15
+        c["inout"] = c.get("rep") in ("mesh", "mesh_shuffled") and rng.random() < 0.3
+        if c.get("mode") in ("collection", "nested") and not c["each"] and not c.get("path") and rng.random() < 0.5:
+            # a motion history applied to the whole and to the Collection of the parts
+            c["pmove"] = [[rnd(rng, -1, 1) for _ in range(3)] for _ in range(rng.choice([0, 1, 2, 3]))]
+            c["prot"] = rng.choice([[0.0, 0.0, math.pi / 2], [math.pi, 0.0, 0.0], [rnd(rng, -2, 2) for _ in range(3)]])
+            c["panchor"] = rng.choice([[0.0, 0.0, 0.0], [rnd(rng, -2, 2) for _ in range(3)]])
         return c
     return g
 
@@ -726,7 +842,7 @@ def cut_axes(c):
     return ""
 
 
-LENGTH_KEYS = ("dim", "edges", "r", "z", "obs", "d", "points", "path")
+LENGTH_KEYS = ("dim", "edges", "r", "z", "obs", "d", "points", "path", "voff", "pmove", "panchor")
 SCALES = (1.0, 1.0, 1e-3, 1e-6, 1e3)       # absolute size of the body in metres (the library works in SI units)
 
 
@@ -756,6 +872,23 @@ def scale_tag(c):
     return "" if s == 1.0 else f"scale-{s:.0e}"
 
 
+def _build(g):
+    fam = g["family"]
+    if fam == "cuboid_partition":
+        return [(None,) + build_cuboid_partition(g) + (FIELDS,)]
+    if fam == "cylinder_partition":
+        return [(None,) + build_cylinder_partition(g) + (FIELDS,)]
+    if fam == "mixed_partition":
+        return [(None,) + build_mixed_partition(g) + (FIELDS,)]
+    if fam == "cuboid_repr":
+        return [(None,) + build_cuboid_repr(g)]
+    if fam == "sphere_dipole":
+        return [(None,) + build_sphere_dipole(g) + (FIELDS,)]
+    if fam == "mesh_convert":
+        return build_mesh_convert(g)
+    raise ValueError(fam)
+
+
 def evaluate(c):
     """returns list of failures: dict(clause, field, region, rel, obs_index, detail)"""
     fam = c["family"]
@@ -763,39 +896,77 @@ def evaluate(c):
     if not c["obs"]:
         return fails
     g = scaled(c)                 # geometry in metres; c keeps the unit-size description (regions, tags, report)
+    if c.get("as_array"):         # float64 ndarrays (one shared polarization array for all parts) instead of lists
+        g = dict(g)
+        if "pol" in g:
+            g["pol"] = np.array(g["pol"], dtype=float)
+        if g.get("dim") is not None:
+            g["dim"] = np.array(g["dim"], dtype=float)
     obs = to_global(g["pose"], g["obs"])
+    via = c.get("via", "toplevel")
+    ops = {k: g.get(k) for k in ("pmove", "prot", "panchor")} if c.get("prot") or c.get("pmove") else None
+
+    def report(label, res, what=""):
+        for f, rel, i in res:
+            if rel > 1.0:
+                fails.append({"clause": clause_of(c, label), "field": f, "region": region_of(c, i),
+                              "rel": rel, "obs_index": i,
+                              "detail": f"{f}-field of the whole and of the parts differ by {rel:.3g} x tolerance "
+                                        f"at local observer {c['obs'][i]}" + what
+                                        + (f" (all lengths x {c['scale']:g} m)" if c.get("scale", 1.0) != 1.0 else "")})
+
     try:
         if fam == "polyline_circle":
             return eval_polyline_circle(g, obs)
-        if fam == "cuboid_partition":
-            comps = [(None,) + build_cuboid_partition(g) + (FIELDS,)]
-        elif fam == "cylinder_partition":
-            comps = [(None,) + build_cylinder_partition(g) + (FIELDS,)]
-        elif fam == "mixed_partition":
-            comps = [(None,) + build_mixed_partition(g) + (FIELDS,)]
-        elif fam == "cuboid_repr":
-            comps = [(None,) + build_cuboid_repr(g)]
-        elif fam == "sphere_dipole":
-            comps = [(None,) + build_sphere_dipole(g) + (FIELDS,)]
-        elif fam == "mesh_convert":
-            comps = build_mesh_convert(g)
-        else:
-            raise ValueError(fam)
         rtol, atol = TOL[fam]
-        for label, whole, parts, fields in comps:
+        comps = _build(g)
+        for ci, (label, whole, parts, fields) in enumerate(comps):
             each = "/each" if c.get("each") else ""
-            mode = (c["mode"] if isinstance(parts, (list, tuple)) else "single") + each
+            is_list = isinstance(parts, (list, tuple))
+            mode = (c["mode"] if is_list else "single") + each
             if fam == "mesh_convert" and c["path"]:
-                res = compare_path(whole, parts, obs, c["pol"], fields, rtol, atol)
+                report(label, compare_path(whole, parts, obs, c["pol"], fields, rtol, atol))
+            elif ops and is_list and c["mode"] in ("collection", "nested") and not each:
+                # the same motion history on the whole, on the Collection of its parts and on a Sensor whose pixels are
+                # the local observers (so the observers keep their place relative to the body at every path step);
+                # fresh objects per field: the history changes them
+                def sensor():
+                    sn = magpy.Sensor(pixel=np.array(g["obs"], dtype=float), **whole_pose(g["pose"]))
+                    apply_ops(sn, ops)
+                    return sn
+
+                def get_w(f, ci=ci):
+                    w = _build(g)[ci][1]
+                    apply_ops(w, ops)
+                    return np.reshape(GET[f](w, sensor()), (-1, 3))
+
+                def get_p(f, ci=ci):
+                    coll = as_collection(_build(g)[ci][2], c["mode"])
+                    apply_ops(coll, ops)
+                    return np.reshape(GET[f](coll, sensor()), (-1, 3))
+                report(label, compare_fn(get_w, get_p, len(obs), c["pol"], fields, rtol, atol), " after move/rotate")
+            elif c.get("inout") and fam == "cuboid_repr" and not is_list:
+                # the in_out keyword: observers known to be inside resp. outside the mesh, one call per region
+                reg = [region_of(c, i) for i in range(len(obs))]
+
+                def get_p(f, parts=parts, reg=reg):
+                    P = np.zeros((len(obs), 3))
+                    for r in ("inside", "outside"):
+                        idx = [i for i, x in enumerate(reg) if x == r]
+                        if idx:
+                            P[idx] = np.reshape(GET[f](parts, obs[idx], in_out=r), (-1, 3))
+                    return P
+                report(label, compare_fn(lambda f: field_of(whole, obs, f, "single", via), get_p, len(obs), c["pol"],
+                                         fields, rtol, atol), " with in_out given")
             else:
-                res = compare(whole, parts, obs, c["pol"], fields, mode, rtol, atol)
-            for f, rel, i in res:
-                if rel > 1.0:
-                    fails.append({"clause": clause_of(c, label), "field": f, "region": region_of(c, i),
-                                  "rel": rel, "obs_index": i,
-                                  "detail": f"{f}-field of the whole and of the parts differ by {rel:.3g} x tolerance "
-                                            f"at local observer {c['obs'][i]}"
-                                            + (f" (all lengths x {c['scale']:g} m)" if c.get("scale", 1.0) != 1.0 else "")})
+                report(label, compare(whole, parts, obs, c["pol"], fields, mode, rtol, atol, via))
+                if c.get("history") and not fails and fam != "sphere_dipole" and len(comps) == 1:
+                    # call -> public mutation (new polarization on the SAME objects) -> call
+                    pol2 = [-2.0 * x for x in c["pol"][::-1]]
+                    set_pol(whole, pol2)
+                    set_pol(parts, pol2)
+                    report(label, compare(whole, parts, obs, pol2, fields, mode, rtol, atol, via),
+                           " after assigning a new polarization to the same objects")
     except Exception as e:   # pylint: disable=broad-except
         fails.append({"clause": clause_of(c), "field": "raises", "region": type(e).__name__, "rel": float("inf"),
                       "obs_index": 0, "detail": f"valid construction/evaluation raised {type(e).__name__}: {e}"[:300]})
@@ -805,7 +976,7 @@ def evaluate(c):
 def compare_path(whole, parts, obs, pol, fields, rtol, atol):
     """objects with a path of length m: outputs (m, n, 3); compare every path position"""
     out = []
-    jn = float(np.linalg.norm(pol))
+    jn = float(np.linalg.norm(pol)) or 1.0
     for f in fields:
         scale = jn if f in "BJ" else jn / MU0
         W = np.array(GET[f](whole, obs))
@@ -834,6 +1005,12 @@ def eval_polyline_circle(c, obs):
         get = GET[f]
         Hc = np.reshape(get(circ, obs), (-1, 3))
         scale = abs(c["cur"]) / c["d"] * (MU0 if f == "B" else 1.0)
+        if c["cur"] == 0:         # no current: both fields vanish exactly
+            pl = magpy.current.Polyline(current=0.0, vertices=ngon(c["d"], 64, c["phase"]), **wp)
+            if np.any(Hc != 0) or np.any(np.reshape(get(pl, obs), (-1, 3)) != 0):
+                fails.append({"clause": "Polyline->Circle", "field": f, "region": "zero-current", "rel": float("inf"),
+                              "obs_index": 0, "detail": "non-zero field of a conductor without current"})
+            continue
         errs = []
         for n in NGON:
             pl = magpy.current.Polyline(current=c["cur"], vertices=ngon(c["d"], n, c["phase"]), **wp)
@@ -886,6 +1063,20 @@ def _variants(c):
         v(pose={"pos": [0.0, 0.0, 0.0], "rotvec": c["pose"]["rotvec"]})
     if c.get("scale", 1.0) != 1.0:
         v(scale=1.0)
+    if c.get("prot") or c.get("pmove"):
+        v(prot=None, pmove=None)
+    if c.get("history"):
+        v(history=False)
+    if c.get("inout"):
+        v(inout=False)
+    if c.get("via", "toplevel") != "toplevel":
+        v(via="toplevel")
+    if c.get("as_array"):
+        v(as_array=False)
+    if c.get("voff") and any(c["voff"]):
+        v(voff=[0.0, 0.0, 0.0])
+    if str(c.get("mode", "")).startswith("decoy") or c.get("mode") == "nested":
+        v(mode="sumup")
     if c.get("mode") not in ("loop", "single"):
         v(mode="loop")
     if c.get("each") and len(c["obs"]) > 1:
